@@ -236,4 +236,4 @@ def run(case, ctx):
 
 def stages(tier):
     return [{"name": "hist", "kind": "hyp", "strategy": strategy, "run": run,
-             "examples": {"quick": 6000, "thorough": 80000}, "shards": 16}]
+             "examples": {"quick": 6000, "thorough": 400000}, "shards": 16}]
